@@ -73,6 +73,14 @@ class Ctx:
         self.instances.append(Instance(rule, construct, where, HOLDS, detail, key))
 
     def violated(self, rule, construct, where="", detail="", key="", facts=None):
+        # the function still calls helpers that are new to the rules and could not be inlined: whatever looks
+        # wrong or missing here may be done there, so no verdict is drawn from it
+        from .loader import opaque_at
+        hidden = opaque_at(where)
+        if hidden:
+            self.inconclusive(rule, construct, where, "%s [not decided: the function calls %s, new to the rules and not inlinable]"
+                              % (detail, ", ".join(hidden)), key)
+            return
         self.instances.append(Instance(rule, construct, where, VIOLATED, detail, key, facts))
 
     def inconclusive(self, rule, construct, where="", detail="", key=""):
